@@ -248,6 +248,13 @@ func init() {
 }
 
 func NewWatchdog(rep *Report, limit time.Duration) *Watchdog {
+	if s := os.Getenv("VH_WATCHDOG_S"); s != "" {
+		// replays of a single case use a shorter (still generous) limit
+		var n int
+		if _, err := fmt.Sscanf(s, "%d", &n); err == nil && n > 0 {
+			limit = time.Duration(n) * time.Second
+		}
+	}
 	w := &Watchdog{rep: rep, Limit: limit, MemCap: 6 << 30}
 	go w.loop()
 	return w
@@ -279,7 +286,7 @@ func (w *Watchdog) loop() {
 		w.mu.Lock()
 		if w.active {
 			over := time.Since(w.since) > w.Limit
-			why := fmt.Sprintf("the call did not return within %v (cases of this kind take microseconds to milliseconds)", w.Limit)
+			why := "the call did not return within the watchdog limit (cases of this kind take microseconds to milliseconds)"
 			if !over {
 				runtime.ReadMemStats(&ms)
 				if ms.HeapAlloc > w.MemCap {
